@@ -6,7 +6,7 @@ from ..core import AnalysisError, norm, walk_no_nested
 
 META = {
     'design_ref': 'DESIGN.md §5 C09',
-    'technique': 'shape-case abstract interpretation of the loop-free LinkedList / LinkedListNode / OrderedSet methods over symbolic heaps with a reference list model as oracle; failure-atomicity on the same interpreter; Deb822Dict methods interpreted with case-variant keys (a plain string meets a stored key only in its lower-cased spelling) against a reference mapping; hash/equality agreement of the case-insensitive string from path enumeration; copy-protocol rule for classes that store weak references and for key classes with __slots__; __reduce__ interpreted after every re-ordering (items in list order); default sort key interpreted on names of mixed case; constructor interpreted on sequences of pairs with repeated keys; two-step histories (re-order, sort or delete, then assign) on objects completed with what the constructor derives from their attributes; a class that keeps a container rebuilt on copy next to a table of its nodes defines its own copy protocol (MRO lookup)',
+    'technique': 'shape-case abstract interpretation of the loop-free LinkedList / LinkedListNode / OrderedSet methods over symbolic heaps with a reference list model as oracle; failure-atomicity on the same interpreter; Deb822Dict methods interpreted with case-variant keys (a plain string meets a stored key only in its lower-cased spelling) against a reference mapping; hash/equality agreement of the case-insensitive string from path enumeration; copy-protocol rule for classes that store weak references and for key classes with __slots__; __reduce__ interpreted after every re-ordering (items in list order); default sort key interpreted on names of mixed case; constructor interpreted on sequences of pairs with repeated keys; two-step histories (re-order, sort or delete, then assign) on objects completed with what the constructor derives from their attributes; a class that keeps a container rebuilt on copy next to a table of its nodes defines its own copy protocol (MRO lookup); operations on the empty key set',
     'level_text': 'Static decision per shape case: after append / insert at head / insert before-after / remove / pop / clear the list is a '
                   'well-formed doubly linked list holding exactly the reference sequence; OrderedSet add/remove/order_* keep table and list in '
                   'tandem, keep the first spelling and raise KeyError/ValueError before any mutation; every access of Deb822Dict to its '
